@@ -30,7 +30,7 @@ def run(chk):
     if env is None: return
     drv, impl = env
     rng = chk.rng
-    ngroups = 40 if chk.tier == "quick" else 1500
+    ngroups = 150 if chk.tier == "quick" else 3000
     nshuf = 4 if chk.tier == "quick" else 12
     solos = []; groups = []
     for g in range(ngroups):
@@ -66,7 +66,43 @@ def run(chk):
                     line = it[1].decode('latin1')
                 s.items.append(('L', line.encode('latin1'))); sh.step(line)
             members.append((cid, s))
-        groups.append((svcs, rules, timeout, members))
+        barrier = None
+        focused = bool(svcs) and rng.random() < 0.3
+        if focused:
+            # focused group: every client gets all its queries out (hurry-up) before a reload that drops services; the answers come afterwards
+            members = []
+            cuts = {}
+            for cid in ids:
+                s = Scn(True, bool(rules), svcs, rules, timeout, [], "solo client %d (focused)" % cid)
+                sh = Shadow(svcs, timeout, True)
+                pre = ["%d C %s %d 10.1.1.1 6667" % (cid, rng.choice(['1.2.3.4', '2001:db8::1', '10.0.0.7']), 1000 + cid)]
+                if rng.random() < 0.6: pre.append("%d P :%s" % (cid, rng.choice(['+x acct pass', '+! acct pass', '-x a b'])))
+                pre.append("%d H" % cid)
+                for l in pre: sh.step(l)
+                post = []
+                c_ = sh.live.get(cid)
+                for svc in (rng.sample(sorted(c_.out), len(c_.out)) if c_ else []):
+                    post.append("-1 X %s %s :%s" % (svc, c_.tag(), rng.choice(['OK', 'OK', 'NO refused', 'NO refused', 'OK acct:1', 'AGAIN a', 'MORE m'])))
+                if rng.random() < 0.5: post.append("%d %s" % (cid, rng.choice(['D', 'T', 'H', 'P :+x c d'])))
+                s.items = L(*(pre + post)); cuts[cid] = len(pre)
+                members.append((cid, s))
+            newsvcs = [x for x in svcs if rng.random() < 0.4]
+            barrier = (newsvcs, rules, timeout, cuts)
+            for cid, s in members:
+                k_ = cuts[cid]
+                s.items = s.items[:k_] + [('R', newsvcs, rules, timeout)] + s.items[k_:]
+            chk.hist("group:focused (queries out, reload drops services, answers afterwards)")
+            groups.append((svcs, rules, timeout, members, barrier))
+            continue
+        if svcs and rng.random() < 0.4:
+            # a reload (a global event) acts as a barrier: every client's script is cut in two, the parts are interleaved separately
+            newsvcs = [x for x in svcs if rng.random() < 0.5] if rng.random() < 0.7 else [(n_, rng.choice(TYPES)) for n_, t_ in svcs]
+            barrier = (newsvcs, rules, timeout, {cid: rng.randrange(0, len(s.items) + 1) for cid, s in members})
+            for cid, s in members:
+                k_ = barrier[3][cid]
+                s.items = s.items[:k_] + [('R', newsvcs, rules, timeout)] + s.items[k_:]
+            chk.hist("group:with reload barrier")
+        groups.append((svcs, rules, timeout, members, barrier))
     # solo runs
     solo_scns = [s for g in groups for _, s in g[3]]
     dsolo = run_daemons(impl, solo_scns)
@@ -77,23 +113,31 @@ def run(chk):
             solo_proj[(gi, cid)] = proj_client(s, dsolo[k], cid); k += 1
     # interleavings: merge preserving each client's order; serials in reply tags are rewritten to the instance's serial in the merged run
     inter = []
-    for gi, (svcs, rules, timeout, members) in enumerate(groups):
+    for gi, (svcs, rules, timeout, members, barrier) in enumerate(groups):
         for _ in range(nshuf):
-            queues = {cid: [it[1].decode('latin1') for it in s.items] for cid, s in members}
-            order = [cid for cid, s in members for _ in s.items]
-            rng.shuffle(order)
-            serial = 0; ser_of = {}; solo_ser = {cid: 0 for cid, _ in members}; items = []
+            queues = {cid: [it[1].decode('latin1') for it in s.items if it[0] == 'L'] for cid, s in members}
+            if barrier:
+                o1 = [cid for cid, s in members for _ in range(barrier[3][cid])]
+                o2 = [cid for cid, s in members for _ in range(len(queues[cid]) - barrier[3][cid])]
+                rng.shuffle(o1); rng.shuffle(o2)
+                order = o1 + [None] + o2
+            else:
+                order = [cid for cid, s in members for _ in queues[cid]]
+                rng.shuffle(order)
+            items = []
+            shm = Shadow(svcs, timeout, True)      # tracks the serial each instance gets in the merged run
             for cid in order:
+                if cid is None:
+                    items.append(('R', barrier[0], barrier[1], barrier[2])); shm.svcs = list(barrier[0]); continue
                 line = queues[cid].pop(0)
                 toks = line.split(' ')
-                if len(toks) > 1 and toks[1] == 'C' and len(toks) >= 6:
-                    serial += 1; ser_of[cid] = serial
                 if len(toks) > 3 and toks[1] in ('X', 'x'):
                     a, b = toks[3].split('_')
-                    # the solo script numbered this client's instances 1,2,..; map to the merged numbering
-                    toks[3] = "%s_%x" % (a, ser_of.get(cid, 0))
+                    # the solo script carries this client's solo serial; rewrite to the serial of its instance in the merged run
+                    cur = shm.live.get(cid)
+                    toks[3] = "%s_%x" % (a, cur.serial if cur else 0)
                     line = ' '.join(toks)
-                items.append(('L', line.encode('latin1')))
+                items.append(('L', line.encode('latin1'))); shm.step(line)
             inter.append((gi, Scn(True, bool(rules), svcs, rules, timeout, items, "interleaving of %d clients" % len(members))))
     # solo scripts may re-announce: keep only scripts with a single instance so that the serial mapping above is exact
     dint = run_daemons(impl, [s for _, s in inter])
@@ -104,7 +148,7 @@ def run(chk):
         chk.cov["evaluations"] += 1
         bad = None
         for cid, s in groups[gi][3]:
-            if sum(1 for it in s.items if it[1].split(b' ')[1:2] == [b'C']) > 1:
+            if sum(1 for it in s.items if it[0] == 'L' and it[1].split(b' ')[1:2] == [b'C']) > 1:
                 continue
             got = proj_client(scn, d, cid)
             if got != solo_proj[(gi, cid)]:
@@ -120,7 +164,7 @@ def run(chk):
             chk.violation("model and daemon disagree on an interleaved history (step %d: daemon %r, model %r)" % (k, d.steps[k] if k < len(d.steps) else None, m[k] if k < len(m) else None), replay_text(scn, d, m), "corr:interleave", found_input=False)
             continue
         chk.cov["traces_validated_against_impl"] += 1
-        distinct.add(hash(tuple(x[1] for x in scn.items)))
+        distinct.add(hash(tuple(str(x[1]) for x in scn.items)))
     chk.cov["distinct_nontrivial"] = len(distinct)
     chk.cov["samples"] = [inter[0][1].describe().split("\n")[:30]] if inter else []
     chk.cov["rule"] = "k = 2..4 clients on distinct ids, each with its own generated script (data, passwords, replies addressed to it, timeouts, disconnects); %d random order-preserving interleavings per group on the real daemon; the per-client projection (serial erased) must equal the client's solo run; distinct = distinct interleavings" % nshuf
